@@ -148,8 +148,12 @@ func eqSets(a, b [][]int) bool {
 }
 
 var shortBufs bool
+var sharedBuf []int // when non-nil: the caller reuses ONE buffer for all buffered calls (as the library's own callers do)
 
 func mkbuf(r *driver.Run, n int) []int {
+	if sharedBuf != nil {
+		return sharedBuf
+	}
 	// capacity >= n in most runs; in 'short buffer' runs any capacity >= 1 (the
 	// implementation grows the buffer as needed); arbitrary length and garbage contents
 	c := n + r.T.Draw(3)
@@ -175,6 +179,7 @@ func runDeep(r *driver.Run, k int) {
 	t := r.T
 	n := 1 << uint(k)
 	shortBufs = false
+	sharedBuf = nil
 	r.Logf("deep tree: n=2^%d=%d, balanced merges of equal-rank roots", k, n)
 	var ds disjoint.Set
 	r.Must("New", budget(n), func() { ds = disjoint.New(n) })
@@ -263,6 +268,11 @@ func runOne(r *driver.Run) {
 	liveCheck := t.Draw(3) // 0: always on a copy, 1: always live, 2: tape decides each time
 	pairing := t.Chance(1, 2)
 	shortBufs = t.Chance(1, 3)
+	sharedBuf = nil
+	if !shortBufs && t.Chance(1, 2) {
+		sharedBuf = make([]int, n+1) // zero-filled, then carries whatever earlier calls left in it
+		r.Probe("one-buffer-reused-for-the-whole-history")
+	}
 	r.Logf("config n=%d ops=%d weights=%v liveCheck=%d pairing-phase=%v short-buffers=%v", n, nops, w, liveCheck, pairing, shortBufs)
 	var ds disjoint.Set
 	r.Must("New", budget(n), func() { ds = disjoint.New(n) })
